@@ -32,6 +32,8 @@ def one(ctx: Ctx, spec, dtype, m, exhaustive):
     else:
         J = [[Fr(rng.randint(-9, 9)) + Fr(rng.randint(0, 7), 8) for _ in range(n)] for _ in range(m)]   # no exact ties
     Jt = to_tensor(J, dtype)
+    import prop_C08
+    prop_C08._FLOOR[0] = float(Jt.abs().max())
     pv = None
     if spec.pref is not None and (rng.random() < 0.7 or spec.pref == "weights"):
         if spec.pref == "leak":
